@@ -32,7 +32,7 @@ let h_findptr (a : string array) : string =
 
 (* compare <cs> <same> <treeA|NULL> <treeB|NULL> -> <a?b> <b?a> U *)
 let h_compare (a : string array) : string =
-  let cs = a.(1) = "1" in let same = a.(2) = "1" in
+  let cs = a.(1) = "1" in let same = a.(2) = "1" || a.(2) = "3" in   (* 2 / 3: operands in read-only memory on the implementation side *)
   let pos = ref 3 in
   let x = parse_node_or_null a pos in
   let y = if same then x else parse_node_or_null a pos in
